@@ -1013,6 +1013,20 @@ def mergeEnv (sup prog : KV) : KV := dupdate sup prog
 def mergeGroupEnv (sup : KV) (g : GConfig) : GConfig :=
   { g with procs := g.procs.map fun p => { p with environment := mergeEnv sup p.environment } }
 
+/-! The loop itself: `for group in …: for proc in …: env = section.environment[.copy()]; env.update(proc.environment);
+    proc.environment = env`.  Whether `env` is a fresh dictionary per process is GENERATED (`rcEnvCopied`).  Without the
+    copy there is one dictionary: every `update` goes into `section.environment`, and after the loop every process
+    configuration (and the [supervisord] section) refers to that one accumulated dictionary. -/
+
+/-- `section.environment` after the loop -/
+def envAfterLoop (copied : Bool) (sup : KV) (gs : List GConfig) : KV :=
+  if copied then sup
+  else (gs.flatMap (·.procs)).foldl (fun acc p => dupdate acc p.environment) sup
+
+/-- what `proc.environment` of the processes of one group denotes after the loop (`fin` = `envAfterLoop`) -/
+def mergeGroupEnvBy (copied : Bool) (sup fin : KV) (g : GConfig) : GConfig :=
+  { g with procs := g.procs.map fun p => { p with environment := if copied then mergeEnv sup p.environment else fin } }
+
 structure SupSettings where
   minfds : Int
   minprocs : Int
@@ -1061,8 +1075,66 @@ def readConfig (ini : Ini) : Except String Result := do
   let cx : Ctx := { penv, here := ini.here, hostNode := ini.hostNode, dirs := ini.dirs, users := ini.users,
                     handlers := ini.handlers }
   let groups ← processGroupsFromParser cx ini
+  let fin := envAfterLoop rcEnvCopied supEnv groups
   pure { sup := { minfds, minprocs, umask, logfile_maxbytes, logfile_backups, identifier, nodaemon, silent,
-                  nocleanup, strip_ansi, environment := supEnv },
-         groups := groups.map (mergeGroupEnv supEnv) }
+                  nocleanup, strip_ansi, environment := fin },
+         groups := groups.map (mergeGroupEnvBy rcEnvCopied supEnv fin) }
+
+/-! ## `read_include_config`: what `%(here)s` of an included file stands for
+
+  `parser.read(filename)` adds the sections of one matched file to the parser; `parser.expand_here(dir)` then replaces
+  the text `%(here)s` in every value the parser holds.  A value is modelled as the list of its pieces around the
+  occurrences of that marker (the split is ConfigParser / `str.replace` territory and trusted); sections are only
+  appended (two files defining the same section name are outside this model).  WHICH directory is handed to
+  `expand_here` after a file has been read is GENERATED (`includeHereSrc`). -/
+
+inductive HTok
+  | lit (s : String)
+  | here                     -- one occurrence of `%(here)s`
+deriving DecidableEq, Repr
+
+abbrev HVal := List HTok
+
+structure HSection where
+  name : String
+  opts : List (String × HVal)
+deriving DecidableEq, Repr
+
+def HTok.subst (dir : String) : HTok → HTok
+  | .here => .lit dir
+  | t => t
+
+def HSection.subst (dir : String) (s : HSection) : HSection :=
+  { s with opts := s.opts.map fun kv => (kv.1, kv.2.map (HTok.subst dir)) }
+
+/-- `parser.expand_here(dir)` -/
+def expandHere (dir : String) (secs : List HSection) : List HSection := secs.map (HSection.subst dir)
+
+/-- one file matched by a pattern: `os.path.abspath(os.path.dirname(filename))` and its sections -/
+structure IncFile where
+  dir : String
+  sections : List HSection
+deriving Repr
+
+/-- one include pattern: `os.path.abspath(os.path.dirname(pattern))` and `sorted(glob.glob(pattern))` -/
+structure IncPattern where
+  dir : String
+  files : List IncFile
+deriving Repr
+
+def hereArg (mainHere : String) (p : IncPattern) (f : IncFile) : String :=
+  match includeHereSrc with
+  | .matchedFile => f.dir
+  | .pattern => p.dir
+  | .mainFile => mainHere
+
+/-- the loop over the files matched by one pattern -/
+def readFiles (mainHere : String) (p : IncPattern) : List HSection → List IncFile → List HSection
+  | acc, [] => acc
+  | acc, f :: fs => readFiles mainHere p (expandHere (hereArg mainHere p f) (acc ++ f.sections)) fs
+
+/-- `read_include_config`: the parser's sections after all patterns (the main file's own `%(here)s` first) -/
+def readInclude (mainHere : String) (main : List HSection) (pats : List IncPattern) : List HSection :=
+  pats.foldl (fun acc p => readFiles mainHere p acc p.files) (expandHere mainHere main)
 
 end Sv.Config
